@@ -375,12 +375,14 @@ func (w *World) derive(rec *ScanRecord, gr *GroupRec) {
 			}
 		case sim.KGet:
 			lastGet[e.Node] = e
-			if !e.OK() {
+			if !e.OK() && !strings.HasPrefix(e.Err, sim.CallerPrefix) { // a request escalator itself abandoned excuses nothing
 				gr.Failed[e.Node] = true
 			}
 		case sim.KUpdate:
 			if !e.OK() {
-				gr.Failed[e.Node] = true
+				if !strings.HasPrefix(e.Err, sim.CallerPrefix) {
+					gr.Failed[e.Node] = true
+				}
 				break
 			}
 			before, after := hasEsc(e.Before), hasEsc(e.Sent)
